@@ -15,7 +15,8 @@ Definition ok_float (x : res pyv) (q : Q) : Prop := exists q', x = Ok (PFloat q'
 Ltac py_cbn :=
   cbn [py_if py_let pe_and pe_or pe_not pe_cmp pe_is_none pe_is_not_none pe_add pe_sub pe_mul pe_div pe_mod pe_pow pe_lift2
        py_add py_sub py_mul py_div py_mod py_pow py_arith py_cmp py_eq py_order py_is_none as_num nq truth bind
-       of_oz of_ostr negb andb orb Z.of_nat Pos.of_succ_nat Pos.succ inject_Z].
+       of_oz of_ostr negb andb orb Z.of_nat Pos.of_succ_nat Pos.succ];
+  repeat match goal with |- context [inject_Z ?z] => change (inject_Z z) with (z # 1) end.
 
 (* ---------------- util.f_measure ---------------- *)
 Lemma qpow2 (x : Q) : x ^ 2 == x * x. Proof. reflexivity. Qed.
@@ -25,10 +26,11 @@ Ltac q_atom :=
       let E := fresh "E" in destruct (Qeq_bool a b) eqn:E;
       [apply Qeq_bool_iff in E | apply Qeq_bool_neq in E]
   end.
-Ltac q_norm := repeat match goal with
-  | H : context [inject_Z ?z] |- _ => progress (cbn [inject_Z] in H)
-  | H : context [_ ^ 2] |- _ => rewrite qpow2 in H
-  end; cbn [inject_Z]; rewrite ?qpow2.
+Ltac q_norm :=
+  repeat match goal with
+  | H : context [Qpower ?x 2] |- _ => change (Qpower x 2) with (x * x) in H
+  | |- context [Qpower ?x 2] => change (Qpower x 2) with (x * x)
+  end.
 (* an equation between two quotients, by ring on numerators and denominators; else by field *)
 Ltac q_quot :=
   first [ reflexivity | ring
@@ -59,10 +61,12 @@ Theorem f_measure_tie_zero_den : forall p r beta : Q,
   gen_f_measure (PFloat p) (PFloat r) (PFloat beta) = Raise ZeroDivisionError /\ f_measure p r beta == 0.
 Proof.
   intros p r beta N D. unfold gen_f_measure, f_measure, qeqb. py_cbn.
-  repeat (q_atom; py_cbn); q_norm; try (exfalso; apply N; split; assumption);
-    try (split; [reflexivity|]);
-    try (match goal with E : ~ ?y == 0 |- _ => exfalso; apply E; rewrite <- D; ring end).
-  all: unfold Qdiv; setoid_replace (beta * beta * p + r) with 0 by exact D; unfold Qinv; cbn; ring.
+  assert (Z : (1 + beta * beta) * p * r / (beta * beta * p + r) == 0).
+  { unfold Qdiv. rewrite D. unfold Qinv; cbn. ring. }
+  repeat (q_atom; py_cbn); q_norm;
+    first [ split; [reflexivity | first [exact Z | reflexivity]]
+          | exfalso; apply N; split; assumption
+          | q_absurd ].
 Qed.
 (* the guard holds on the domain the metrics use: precision, recall in [0,1], not both 0, beta > 0 ... *)
 Lemma f_measure_guard_metrics p r beta : 0 <= p -> 0 <= r -> 0 < beta -> (p == 0 /\ r == 0) \/ ~ beta * beta * p + r == 0.
@@ -78,6 +82,7 @@ Proof. split; [eexists; split; [vm_compute; reflexivity|reflexivity] | vm_comput
 (* ---------------- key.weighted_score: the ladder ---------------- *)
 Lemma seqb_sym' a : forall b, seqb a b = seqb b a.
 Proof. induction a as [|x a IH]; destruct b as [|y b]; cbn; auto. now rewrite Nat.eqb_sym, IH. Qed.
+Ltac z_closed := repeat match goal with |- context [Z.eqb (Zpos ?p) 0] => change (Z.eqb (Zpos p) 0) with false end.
 Ltac k_atom :=
   match goal with
   | |- context [seqb ?a ?b] => destruct (seqb a b) eqn:?
@@ -87,7 +92,7 @@ Theorem key_ladder_tie : forall (rk : option Z) (rm : option str) (ek : option Z
   ok_float (gen_key_ladder (of_oz rk) (of_ostr rm) (of_oz ek) (of_ostr em)) (score_parts (rk, rm) (ek, em)).
 Proof.
   intros rk rm ek em. unfold gen_key_ladder, ok_float, score_parts, key_rel, oz_eqb, om_eqb, m_is, s_major, s_minor.
-  destruct rk as [a|], ek as [b|], rm as [s|], em as [t|]; py_cbn;
+  destruct rk as [a|], ek as [b|], rm as [s|], em as [t|]; py_cbn; z_closed; py_cbn;
     rewrite ?(seqb_sym' t s);
     repeat (k_atom; py_cbn); try (eexists; split; [reflexivity|reflexivity]); exfalso; lia.
 Qed.
